@@ -315,6 +315,7 @@ def job_qr(cfg):
 THETAS = [("0", 0.0), ("0.3", 0.3), ("pi/3", np.pi / 3), ("1.5", 1.5), ("pi/2-1e-4", np.pi / 2 - 1e-4), ("pi/2", np.pi / 2)]
 SD_FAMILY = ("rhf", "uhf", "uhf_cpmc", "ghf-unmixed")  # single-determinant kinds built here with a controlled spin breaking
 OTHER_KINDS = [k for k in trials.KINDS_ALL if k not in ("rhf", "uhf", "uhf_cpmc")]
+COMPLEX_SIZES = [(2, 1, 1), (3, 2, 1), (3, 2, 2), (3, 2, 0), (4, 2, 1), (4, 3, 1)]  # quick tier: sizes that get the complex-orbital letters
 OCC_SMEAR = [0.98, 0.95, 0.91, 0.86, 0.80]
 
 
@@ -324,7 +325,13 @@ def sd_family_case(kind, n, na, nb, seed, theta, pattern, nonorth, frame="generi
     mixed by a non-orthogonal matrix.  theta = 0 is the ROHF-like member (beta space inside the alpha space).
     Returns dict(trial, wave_data, ket, F, Fb, nrot, moa, mob)."""
     jnp, wf = trials.lib()
-    F = al.frame(n, seed, 2) if frame == "generic" else np.eye(n)
+    F = np.eye(n) if frame == "identity" else al.frame(n, seed, 2)
+    if frame == "complex":
+        # a genuinely complex unitary frame (not a phase per column): the trial's density matrix is complex Hermitian and its
+        # natural orbitals are complex; admissible for uhf / uhf_cpmc, whose formulas conjugate the trial throughout
+        from scipy.linalg import expm
+
+        F = F @ expm(0.7j * al.dense_sym(n, seed, 77))
     nrot = min(nb, n - na)
     G = np.eye(n)
     ks = list(range(nrot)) if pattern == "all" else list(range(max(nrot - 1, 0), nrot))
@@ -362,7 +369,7 @@ def smeared_rdm1(F, Fb, na, nb):
 
     def dm(Q, k):
         occ = np.array([OCC_SMEAR[i] for i in range(k)] + [0.12 / (1 + i) for i in range(n - k)])
-        return (Q * occ[None, :]) @ Q.T
+        return (Q * occ[None, :]) @ Q.conj().T
 
     return np.array([dm(F, na), dm(Fb, nb)])
 
@@ -445,18 +452,18 @@ def occupation_gap(rdm, na, nb):
     generator is given (its leading natural orbitals are only defined when this gap is open)."""
     g = np.inf
     for D, k in ((rdm[0], na), (rdm[1], nb)):
-        w = np.sort(np.linalg.eigvalsh(0.5 * (D + D.T)))[::-1]
+        w = np.sort(np.linalg.eigvalsh(0.5 * (D + D.conj().T)))[::-1]
         if 0 < k < len(w):
             g = min(g, w[k - 1] - w[k])
     return g
 
 
-def check_init_case(res, cfg, label, trial, wd, ket, n, na, nb, restricted, sd_representable, ham, container_ok, kind):
+def check_init_case(res, cfg, label, trial, wd, ket, n, na, nb, restricted, sd_representable, ham, container_ok, kind, site_suffix=""):
     """All demands on one (trial, density-matrix letter, restricted flag); both walker counts."""
     jnp, wf = trials.lib()
     sec = fock.sector(n, na, nb)
     base = dict(cfg, case=label, restricted=restricted)
-    site = "get_init_walkers/%s" % ("restricted-%s" % ("closed" if na == nb else "open") if restricted else "unrestricted")
+    site = "get_init_walkers/%s%s" % ("restricted-%s" % ("closed" if na == nb else "open") if restricted else "unrestricted", site_suffix)
     knorm = np.linalg.norm(ket)
     first = None
     for nw in (3, 1):
@@ -555,6 +562,8 @@ def job_init(cfg):
                 shapes = [(pt, "generic") for pt in (["all", "last"] if (nrot > 1 and th != 0.0) else ["all"])]
                 if th > 1.55 and not nonorth:
                     shapes.append(("all", "identity"))  # exactly orthogonal natural orbitals: sign(0) = 0 in the generator
+                if kind in ("uhf", "uhf_cpmc") and (cfg["tier"] == "thorough" or (n, na, nb) in (COMPLEX_SIZES if kind == "uhf" else COMPLEX_SIZES[1:3])):
+                    shapes.append(("all", "complex"))  # complex trial orbitals (orthonormal and, with nonorth, mixed)
                 for pattern, frame in shapes:
                     fam = sd_family_case(kind, n, na, nb, seed, th, pattern, nonorth, frame)
                     trial, ket = fam["trial"], fam["ket"]
@@ -565,7 +574,7 @@ def job_init(cfg):
                         if rl == "smeared":
                             wd["rdm1"] = jnp.asarray(smeared_rdm1(fam["F"], fam["Fb"], na, nb))
                         for restricted in (False, True):
-                            label = "theta=%s/%s/%s/rdm1=%s%s" % (tl, pattern, "nonorth" if nonorth else "orth", rl, "" if frame == "generic" else "/frame=identity")
+                            label = "theta=%s/%s/%s/rdm1=%s%s" % (tl, pattern, "nonorth" if nonorth else "orth", rl, "" if frame == "generic" else "/frame=" + frame)
                             if only and (label != only["case"] or restricted != only["restricted"]):
                                 continue
                             beta_inside_alpha = (th == 0.0) or fam["nrot"] == 0
@@ -574,7 +583,10 @@ def job_init(cfg):
                             else:
                                 rep = (not restricted) or beta_inside_alpha
                                 cont = (not restricted) or na >= nb
-                            st = check_init_case(res, cfg, label, trial, wd, ket, n, na, nb, restricted, rep, ham, cont, kind)
+                            st = check_init_case(res, cfg, label, trial, wd, ket, n, na, nb, restricted, rep, ham, cont, kind,
+                                                 site_suffix="/complex-orbitals" if frame == "complex" else "")
+                            if frame == "complex":
+                                res.guard("complex_orbital_cases/%s-%s" % ("restricted" if restricted else "unrestricted", "open" if na != nb else "closed"))
                             if restricted and fam["nrot"] > 0 and th != 0.0:
                                 res.guard("spin_broken_restricted_cases")
                                 if na != nb:
@@ -645,7 +657,7 @@ def run(ctx):
                 "scaling, walker); oracle: Q^H Q = 1, Q(Q^H W) = W, Q^H W upper triangular, returned factor = prod diag(Q^H W) (column-relative "
                 "1e-11/1e-9), overlap(W) = overlap(Q) x factors, energy and every force-bias component unchanged; "
                 "part B: configurations = trial kind x size x {orthonormal, non-orthonormal orbitals} x spin-breaking angle "
-                "{0, 0.3, pi/3, 1.5, pi/2-1e-4, pi/2} x {all, last} beta orbitals rotated x frame {generic, identity} x density-matrix letter "
+                "{0, 0.3, pi/3, 1.5, pi/2-1e-4, pi/2} x {all, last} beta orbitals rotated x frame {generic, identity, complex unitary (uhf, uhf_cpmc)} x density-matrix letter "
                 "{trial's own, supplied smeared / exact (Fock) / mean-field reference} x restricted flag x n_walkers {1, 3}; oracle: container, "
                 "shape, count, orthonormal columns, Fock-model trial overlap >= 1e-3 (normalised) or ValueError, calc_overlap(init) = Fock overlap, "
                 "calc_energy(init) = <psi|H|psi>/<psi|psi> for single determinants the container can represent; "
@@ -654,6 +666,7 @@ def run(ctx):
     ctx.assume("restricted walkers with n_dn < n_up: qr_vmap returns one factor; the beta factor is the product of the leading n_dn diagonal entries of Q^H W, taken from the oracle's own Q^H W after it was verified upper triangular with prod diag = returned factor")
     ctx.assume("'unchanged' tolerances: force bias 1e-9 for every kind; energy by arithmetic class as in C02: 1e-9 float64 formulas, 2e-5 complex64 intermediates (cisd, ucisd), finite-difference AD trials 6e-6 (two evaluations each within C02's 3e-6) and 3e-5 on the 1e+-6 column scalings (round-off of the second difference at step 1e-4)")
     ctx.assume("'bounded away from zero' = |<psi_T|phi>| / (|psi_T| |phi|) >= 1e-3, the generator's own documented threshold; density-matrix letters are densities of the trial (own, exact, smeared with the trial's orbitals as leading natural orbitals, mean-field reference as mpi_jax supplies it) with an open natural-occupation gap (> 0.2) at n_sigma; a ValueError is always accepted (the property allows refusal), refusals are counted in the guards")
+    ctx.assume("complex trial orbitals are admitted for uhf / uhf_cpmc only (their overlap, Green's function, intermediates and rdm1 conjugate the trial; rhf._calc_rdm1 uses mo @ mo.T and stays real); violations on complex orbitals carry the suffix /complex-orbitals")
     ctx.assume("kinds without _calc_rdm1 raise the documented NotImplementedError when no rdm1 is supplied (counted, outside the property)")
     jobs = qr_configs(ctx.tier, ctx.seed) + init_configs(ctx.tier, ctx.seed)
     ctx.pmap(job, jobs)
@@ -663,7 +676,8 @@ def run(ctx):
     ctx.require_guard("grid_points_u_none", "grid_points_r_none", "grid_points_u_hi-lo", "grid_points_r_lo-hi", "qr_nontrivial_R",
                       "open_shell_restricted_configs", "returned/restricted", "returned/unrestricted",
                       "variational_energy_checked/restricted-open-shell", "spin_broken_restricted_open_shell_cases",
-                      "closed_shell_fallback_construction_returned", "refused_ValueError")
+                      "closed_shell_fallback_construction_returned", "refused_ValueError",
+                      "complex_orbital_cases/restricted-open", "complex_orbital_cases/restricted-closed", "complex_orbital_cases/unrestricted-open")
 
 
 def replay(case):
